@@ -88,6 +88,12 @@ def lib_scenarios():
                 else:
                     out.append({'path': 'lib', 'fmt': fmt, 'dest': dest, 'writer': w, 'garbage': 0, 'idx': i})
                     i += 1
+    # code too deeply nested for the AST-based formatter: the write fails by itself (RecursionError); further faults
+    # are injected on top of it
+    for fmt in FORMATS:
+        for dest in ('absent', 'valid'):
+            out.append({'path': 'lib', 'fmt': fmt, 'dest': dest, 'writer': 'formatter', 'garbage': 0, 'idx': i, 'deep': True})
+            i += 1
     # .p8.png with the label taken from another file (the documented label_fname argument)
     for dest in ('absent', 'valid'):
         for w in WRITERS:
@@ -102,7 +108,8 @@ def cli_scenarios():
 
 
 def scn_key(scn):
-    return '%s%s/%s/%s/%s/g%d/%s' % (scn['path'], '+label_fname' if scn.get('label_from') else '', scn['fmt'],
+    return '%s%s%s/%s/%s/%s/g%d/%s' % (scn['path'], '+label_fname' if scn.get('label_from') else '',
+                                       '+deep' if scn.get('deep') else '', scn['fmt'],
                                      scn['dest'], scn['writer'], scn.get('garbage', 0), bytes(scn['salt']).hex())
 
 
@@ -170,6 +177,20 @@ def material(scn, attempt=0):
     version2 = ch.pick([8, 16, 29, 41])
     label2 = expand(b'lab2' + seed, 8192) if ch.chance(128) else None
     indent = 1 + ch.below(4)
+    if scn.get('deep'):
+        # an expression chain nested deeper than the AST writers can walk (they recurse once per operand): the write
+        # fails by itself with RecursionError - one more internal failure source
+        # (the longest chain picotool's parser still takes at this stack depth; the writers give up earlier)
+        from pico8.lua import lua as plua
+        code = b'x=1\n'
+        for n in range(520, 60, -20):
+            cand = b'-- deep\ns="a"\nx=s' + b'..s' * n + b'\nprint(x)\n'
+            try:
+                plua.Lua.from_lines([cand], version=8)
+            except RecursionError:
+                continue
+            code = cand
+            break
     return {'mem': mem, 'modes': modes, 'version': version, 'code': code, 'label': label, 'mem2': mem2,
             'code2': code2, 'version2': version2, 'label2': label2, 'indent': indent, 'seed': seed}
 
@@ -385,7 +406,7 @@ def judge(sc, spec, inj, err, rc, good, td, case):
     """The oracle for one run. Returns (fired, labels). Resets the destination when the run changed it
     legitimately."""
     kind = spec.get('kind')
-    fired = inj.fired or kind in ('label_unreadable', 'natural')
+    fired = inj.fired or kind in ('label_unreadable', 'natural') or bool(spec.get('expect_natural'))
     failed = err is not None or (rc not in (0, None))
     after = sc.read_dest()
     listing = sorted(os.listdir(td))
@@ -520,6 +541,16 @@ def base_labels(sc):
     return labs
 
 
+def run_spec_result(ctx, sc, spec, inj, err, rc):
+    """Judge a run that failed by itself (code too deep) with or without an injected fault on top."""
+    case = {'scn': dict(sc.scn), 'spec': dict(spec)}
+    fired, labs = judge(sc, spec, inj, err, rc, None, sc.td, case)
+    labs = [x for x in labs if x != 'failed_without_fault'] + base_labels(sc) + ['deep_code_natural_failure']
+    ctx.stats.case((scn_key(sc.scn), sorted(spec.items())), sc.before is not None,
+                   {'scenario': scn_key(sc.scn), 'fault': dict(spec), 'outcome': show(repr(err), 70) if err is not None else 'rc=%r' % rc}
+                   if spec['kind'] == 'natural' else None, labs)
+
+
 def run_spec(ctx, sc, spec, good, n):
     case = {'scn': dict(sc.scn), 'spec': dict(spec)}
     inj, err, rc = attempt(sc, spec)
@@ -562,6 +593,26 @@ def run_scenario(ctx, scn, si):
                 return
             mine = lambda i: True
             owner = True
+        if scn.get('deep'):
+            if not mine(0):
+                return
+            sub = os.path.join(td, 'a0')
+            os.mkdir(sub)
+            sc = Scenario(scn, 0)
+            sc.setup(sub)
+            sc.td = sub
+            sc.attempt = 0
+            for spec in ([{'kind': 'natural'}] + [{'kind': 'stream_write', 'k': k, 'expect_natural': True} for k in (0, 1, 2, 5, 9)] +
+                         [{'kind': 'section_raises', 'section': 'gfx', 'method': 'to_lines' if scn['fmt'] == 'p8' else 'to_bytes',
+                           'after': 0, 'expect_natural': True}]):
+                inj, err, rc = attempt(sc, spec)
+                if err is None and rc in (0, None) and not inj.fired:
+                    ctx.stats.count('deep_code_written_without_failure')     # (a tree that copes with the depth)
+                    sc.reset()
+                    continue
+                run_spec_result(ctx, sc, spec, inj, err, rc)
+            post_batch(sc, None, case0)
+            return
         single = ('label_unreadable' if scn['fmt'] == 'png' and scn['dest'] == 'garbage' else
                   'natural' if scn['path'] == 'build_lua_format' else None)
         if single and not mine(0):
@@ -610,8 +661,28 @@ def _excluded(ctx):
     ctx.stats.exclude('io_error_during_final_copy_into_destination')
 
 
+def earlier_cli_command(ctx):
+    """Options of an earlier p8tool command in the same process (verbosity is process-wide in pico8.util, and
+    tool.main never puts it back): odd shards run everything after `p8tool --debug stats x.p8`, shards divisible by
+    4 after `p8tool -q stats x.p8`."""
+    from pico8 import tool
+    opt = '--debug' if ctx.shard % 2 == 1 else ('-q' if ctx.shard % 4 == 0 else None)
+    if opt is None:
+        return
+    with tempfile.TemporaryDirectory(prefix='c11v_') as td:
+        p = os.path.join(td, 'x.p8')
+        with open(p, 'wb') as fh:
+            fh.write(reffmt.write_p8(8, b'x=1\n', bytes(0x4300)))
+        try:
+            tool.main([opt, 'stats', p])
+        except BaseException:
+            pass
+    ctx.stats.count('after_earlier_command_with_' + opt.strip('-'))
+
+
 def part_lib(ctx):
     ctx.stats.extra['exhaustive'] = True
+    earlier_cli_command(ctx)
     if ctx.shard == 0:
         _excluded(ctx)
     salts = draw_salts(ctx, 'lib', 1 if ctx.quick else 10)
@@ -625,6 +696,7 @@ def part_lib(ctx):
 
 def part_cli(ctx):
     ctx.stats.extra['exhaustive'] = True
+    earlier_cli_command(ctx)
     salts = draw_salts(ctx, 'cli', 1 if ctx.quick else 5)
     si = 0
     for salt in salts:
@@ -663,7 +735,7 @@ def vacuity(total, tier):
             'label_unreadable_failed', 'cli_luafmt_overwrite', 'cli_luamin', 'cli_writep8', 'cli_build', 'path_lib',
             'fmt_p8', 'fmt_png', 'dest_absent', 'dest_valid', 'dest_garbage', 'writer_default', 'writer_minify',
             'writer_formatter', 'label', 'no_label', 'post_batch_ok', 'cli_two_carts', 'earlier_cart_output_complete',
-            'label_fname_given', 'interrupted_by_ctrl_c',
+            'label_fname_given', 'interrupted_by_ctrl_c', 'deep_code_natural_failure', 'after_earlier_command_with_debug', 'after_earlier_command_with_q',
             'stream_write:p8:absent', 'stream_write:p8:valid', 'stream_write:p8:garbage',
             'stream_write:png:absent', 'stream_write:png:valid']
     need += ['section_raises_' + s for s in ('gfx', 'label', 'gff', 'map', 'sfx', 'music')]
